@@ -123,7 +123,13 @@ def _cases(shard):
             cfg['stored'] = True        # committed + swept: the probe starts on ghosts (allocations while loading)
         if kind in F.TREE_KINDS:
             cfg['sizes'] = sizes
-        return {'cfg': cfg, 'build': build + thin, 'probes': draw(st.lists(st.one_of(*probes), min_size=3, max_size=9))}
+        plist = draw(st.lists(st.one_of(*probes), min_size=3, max_size=9))
+        if intkeys and draw(st.booleans()):
+            # one multiunion with every operand form (list, TreeSet, exact Set, bare ints, the clone) and more than
+            # 16 keys in total, so that the result buffer grows while an exact Set is appended
+            plist.append(['multiunion', draw(st.integers(0, 40)), draw(st.integers(17, 30)), 1,
+                          [draw(K), draw(K), 50], True, draw(st.booleans())])
+        return {'cfg': cfg, 'build': build + thin, 'probes': plist}
 
     return case()
 
